@@ -59,6 +59,7 @@ type SrvScenario struct {
 	LatencyMax       time.Duration
 	ReplyTimeout     time.Duration
 	StatelessDevice  bool // writes are validated and echoed but not stored
+	TimeoutWithData  bool // the server side reads sometimes return data together with the deadline error
 	SharedHandlerErr bool // typed handler errors are one shared value (sentinel idiom)
 }
 
@@ -209,6 +210,7 @@ func RunSrv(rc *RunCtx, sc *SrvScenario, sched *Tape, seed uint64, twinReplyLens
 	written := map[int]int{}
 	ln.ConnSetup = func(cl, sv *Conn) {
 		sv.CutReads = sc.CutServerReads
+		sv.TimeoutWithData = sc.TimeoutWithData
 		if sc.LatencyMax > 0 {
 			cl.Latency = func() time.Duration {
 				return time.Duration(s.Tape.Choose(int(sc.LatencyMax/time.Microsecond)+1)) * time.Microsecond
